@@ -26,3 +26,16 @@ bool write_body(const std::string& dest_dir, const std::string& safe_name, const
   out.close();
   return out.good();
 }
+
+// R-C12-4: the destination always ends in a slash
+#include <vector>
+std::string span_name(const std::string& dir, unsigned n) { return dir + "unused_" + std::to_string(n) + ".bin"; }
+bool extract_to(const std::vector<std::string>& args)
+{
+  std::string dest_dir(args[1]);
+  if (dest_dir.empty())
+    return false;
+  if (dest_dir.back() != '/')
+    dest_dir.push_back('/');
+  return !span_name(dest_dir, 2).empty();
+}
